@@ -39,7 +39,11 @@ STRUCTS = {
     'triples': [('A', 'B', 'C'), ('B', 'C', 'D')],
     'triples-single': [('A', 'B', 'C'), ('B', 'C', 'D'), ('C',)],
     'triples-pair': [('A', 'B', 'C'), ('B', 'C', 'D'), ('C', 'A')],
+    # non-empty measurement sets none of whose queries can express the overall count (partial cells, differences)
+    'undetermined': [('A', 'B'), ('C', 'D')],
+    'undetermined-loop': [('A', 'B'), ('B', 'C'), ('C', 'A')],
 }
+KINDS_FOR = {'undetermined': ['partial', 'diff'], 'undetermined-loop': ['diff', 'partial', 'diff']}
 DISJOINT = ['single', 'disjoint-pair', 'disjoint-singles-pair']
 ITERS = [1, 2, 3, 5, 20, 60, 200, 600]
 ORACLES = ['convex', 'approx', 'pairwise']
@@ -55,6 +59,9 @@ def jobs(tier, seed):
     its = ITERS if tier == 'thorough' else [1, 2, 3, 5, 20, 60]
     for sname in STRUCTS:
         for orc in ORACLES:
+            if sname in KINDS_FOR:
+                out.append({'s': sname, 'oracle': orc, 'noise': 'low', 'iters': [1, 5, 60], 'totals': ['none', 'given'], 'seed': seed})
+                continue
             for noise in ['low', 'high']:
                 out.append({'s': sname, 'oracle': orc, 'noise': noise, 'iters': its, 'totals': ['given', 'none'] if tier == 'thorough' else ['given' if noise == 'low' else 'none'],
                             'seed': seed})
@@ -72,7 +79,7 @@ def run_one(sname, orc, noise, iters, totmode, seed, T0=40.0):
     struct = STRUCTS[sname]
     si = list(STRUCTS).index(sname)
     prob = M.Problem(ATTRS, SIZES, struct, si, 'pos', seed, total=T0, noise_mult=0.5 if noise == 'low' else 3.0,
-                     kinds=['dense', 'sparse', 'prefix', 'linop'])
+                     kinds=KINDS_FOR.get(sname, ['dense', 'sparse', 'prefix', 'linop']))
     eng = LocalInference(Domain(ATTRS, SIZES), iters=iters, marginal_oracle=orc)
     ms = prob.fresh_measurements()
     with M.quiet():
